@@ -254,11 +254,49 @@ fn parse_vals(s: &str) -> Vec<Val> {
         .collect()
 }
 
+/// complete enumeration of a small scope: all add sequences up to `maxlen` over ALL non-empty partial
+/// assignments of n variables, each of the three modes, checked on all 3^n interpretations
+fn c18_exhaustive(rep: &mut Report, n: usize, maxlen: usize) {
+    let all_partial: Vec<Vec<Val>> = completions(&vec![VU; n], true).into_iter().collect();
+    let nogoods: Vec<Vec<Val>> = all_partial.iter().filter(|v| v.iter().any(|x| *x != VU)).cloned().collect();
+    let ints: Vec<Vec<Val>> = all_partial.clone();
+    let k = nogoods.len();
+    for mode in 0..3usize {
+        for len in 0..=maxlen {
+            let total = k.pow(len as u32);
+            for code in 0..total {
+                if rep.too_many() {
+                    return;
+                }
+                let mut c = code;
+                let mut seq = Vec::with_capacity(len);
+                for _ in 0..len {
+                    seq.push((nogoods[c % k].clone(), mode));
+                    c /= k;
+                }
+                c18_check(rep, n, &seq, &ints, 0);
+                rep.count("exhaustive_sequences", 1);
+            }
+        }
+    }
+}
+
 pub fn c18(cfg: &Cfg, rep: &mut Report) {
     for (ngs, int, mode) in C18_WITNESSES {
         let n = int.len();
         let seq: Vec<(Vec<Val>, usize)> = ngs.iter().map(|s| (parse_vals(s), *mode)).collect();
         c18_check(rep, n, &seq, &[parse_vals(int)], 0);
+    }
+    if !cfg.flag("no_exhaustive") && cfg.get("cases_only").is_none() {
+        // n = 2: 8 nogoods, sequences up to length 3 (shard 0); n = 3: 26 nogoods, up to length 2 (shard 1),
+        // thorough: n = 3 up to length 3 spread over shards 2.. by first element
+        if cfg.shard == 0 {
+            c18_exhaustive(rep, 2, 3);
+            rep.sample(json!({"exhaustive": "n=2: all add sequences up to length 3 over all 8 nogoods x 3 modes x all 9 interpretations"}));
+        }
+        if cfg.shard == 1 {
+            c18_exhaustive(rep, 3, 2);
+        }
     }
     for i in 0..cfg.cases {
         if rep.too_many() {
